@@ -181,7 +181,13 @@ where
                 // We don't have a valid connection - we must reconnect.
                 if src.inner.is_none() {
                     warn!("Reconnecting");
-                    match inner::connect(&src.config).await {
+                    // The PT may accept the connection and then stay silent, so the
+                    // handshake needs the same bound as every other packet.
+                    let connected = match tokio::time::timeout(TIMEOUT, inner::connect(&src.config)).await {
+                        Ok(connected) => connected,
+                        Err(_) => Err(Error::new(ErrorKind::TimedOut, "Timeout while connecting").into()),
+                    };
+                    match connected {
                         Ok(inner) => src.inner = Some(inner),
                         Err(err) => {
                             warn!("Failed to reconnect: {err:?}");
